@@ -165,3 +165,13 @@ Example ex_server_witness :
   Ok (mk_state Server false false (mk_hstate false [mk_trec 1 false true])
         [(1, fresh_srec false)] 0 0 2 false false [] []).
 Proof. vm_compute; reflexivity. Qed.
+
+(* a stream that ends WITHOUT trailers (DATA with END_STREAM): __ended__ queues the eof marker and
+   sets trailers_received, so a call waiting for trailers wakes up (recv_trailers returns []) *)
+Example ex_end_without_trailers :
+  run_events ex_live_client [StreamEnded 5] =
+  Ok (mk_state Client false false (mk_hstate false [])
+        [(3, mk_srec true None true false true false false 2 false 37);
+         (5, mk_srec true None false false false true false 1 true 0)]
+        37 5 1 false true [] []).
+Proof. vm_compute; reflexivity. Qed.
